@@ -474,6 +474,14 @@ func c16Run(a arrangement) c16Outcome {
 			return out
 		}
 	}
+	c16Observe(root, &out)
+	return out
+}
+
+// c16Observe reads an accepted root: canonical schema, introspection, printed text and the answers to root-level requests.
+func c16Observe(root *ggql.Root, outp *c16Outcome) {
+	out := c16Outcome{}
+	defer func() { *outp = out }()
 	out.accepted = true
 	pv, _ := run.Protect(func() {
 		s, err := extract.FromRoot(root)
@@ -493,7 +501,101 @@ func c16Run(a arrangement) c16Outcome {
 	if pv != nil {
 		out.canon = fmt.Sprintf("PANIC %v", pv)
 	}
-	return out
+}
+
+// c16GoAPI: the same definitions arriving partly as documents and partly as types built in Go (Root.AddTypes), in every
+// order and split: the root operation types with the default names join the schema whichever way and whenever they come,
+// and the root describes and answers the same as the root that read everything from one document.
+func c16GoAPI(c *run.Ctx) {
+	ref := func(n string) ggql.Type { return &ggql.Ref{Base: ggql.Base{N: n}} }
+	obj := func(name, field, typ string) ggql.Type {
+		o := &ggql.Object{Base: ggql.Base{N: name}}
+		_ = o.AddField(&ggql.FieldDef{Base: ggql.Base{N: field}, Type: ref(typ)})
+		return o
+	}
+	defs := []struct{ name, field, typ string }{{"Query", "a", "Int"}, {"Mutation", "b", "Thing"}, {"Subscription", "s", "Thing"}, {"Thing", "x", "Int"}}
+	sdlOf := func(i int) string { return fmt.Sprintf("type %s {\n  %s: %s\n}\n", defs[i].name, defs[i].field, defs[i].typ) }
+	all := ""
+	for i := range defs {
+		all += sdlOf(i)
+	}
+	refOut := c16Run(arrangement{how: "one document", loads: []string{all}})
+	if !refOut.accepted {
+		c.Violation("c16", map[string]interface{}{"diag": "the reference document was refused: " + refOut.err, "loads_a": []string{all}})
+		return
+	}
+	for round := 0; round < c.N(40, 600); round++ {
+		r := c.Rand(1700000 + round)
+		// a random order of the four definitions, cut into one to four steps, each step a document or an AddTypes call;
+		// Thing comes before the types that refer to it (a step must be loadable on its own)
+		order := r.Perm(3)
+		seq := []int{3}
+		for _, k := range order {
+			seq = append(seq, k)
+		}
+		if r.Intn(2) == 0 { // Query first, Thing second
+			seq = []int{0, 3}
+			for _, k := range order {
+				if k != 0 {
+					seq = append(seq, k)
+				}
+			}
+		}
+		root := ggql.NewRoot(&c15Root{Query: &c15Obj{}, Mutation: &c15Obj{}, Subscription: &c15Obj{}})
+		var hist []string
+		okAll := true
+		for p := 0; p < len(seq) && okAll; {
+			n := 1 + r.Intn(len(seq)-p)
+			step := seq[p : p+n]
+			p += n
+			var err error
+			if r.Intn(2) == 0 {
+				text := ""
+				for _, k := range step {
+					text += sdlOf(k)
+				}
+				hist = append(hist, "ParseString: "+strings.ReplaceAll(text, "\n", " "))
+				run.Protect(func() { err = root.ParseString(text) })
+			} else {
+				var ts []ggql.Type
+				names := ""
+				for _, k := range step {
+					ts = append(ts, obj(defs[k].name, defs[k].field, defs[k].typ))
+					names += defs[k].name + " "
+				}
+				hist = append(hist, "AddTypes: "+names)
+				run.Protect(func() { err = root.AddTypes(ts...) })
+			}
+			if err != nil {
+				c.Violation("c16", map[string]interface{}{"diag": "a well-formed step was refused: " + err.Error(), "history": hist})
+				okAll = false
+			}
+			if okAll && r.Intn(3) == 0 {
+				_ = root.ResolveString(`{ __schema { queryType { name } mutationType { name } } }`, "", nil)
+				hist = append(hist, "(introspected)")
+			}
+		}
+		if !okAll {
+			continue
+		}
+		var out c16Outcome
+		c16Observe(root, &out)
+		c.Eval("go-api|"+strings.Join(hist, "|"), true)
+		c.Bucket("arrangement", "documents-and-AddTypes-mixed")
+		c.Count("arrangements_loaded", 1)
+		diag := ""
+		switch {
+		case out.canon != refOut.canon:
+			diag = "canonical schema differs: " + firstDiff(refOut.canon, out.canon)
+		case out.intro != refOut.intro:
+			diag = "introspection answer differs: " + firstDiffLong(refOut.intro, out.intro)
+		case out.reqs != refOut.reqs:
+			diag = "request answers differ: " + firstDiff(refOut.reqs, out.reqs)
+		}
+		if diag != "" {
+			c.Violation("c16", map[string]interface{}{"diag": diag, "arrangement_a": "one document", "arrangement_b": "documents and AddTypes calls mixed", "loads_a": []string{all}, "history": hist})
+		}
+	}
 }
 
 // sortIntro sorts every list of maps that carries a "name" by that name (the spec gives these lists no order).
@@ -697,6 +799,7 @@ func runC16(c *run.Ctx) {
 			break
 		}
 	}
+	c16GoAPI(c)
 }
 
 // c16BadExtension writes an extend block that breaks a type-system rule on a type of the (well-formed) set.
